@@ -88,6 +88,15 @@ impl<T, E> Observer<T, E> for ObservableFutureObserver<T, E> {
 
   fn error(mut self, err: E) {
     send_observable_value(&mut self, Err(err));
+    // resolve the future with what has been recorded, as `complete` does:
+    // the error, or `MultipleValues` if a value had been emitted before it
+    if let Some(value) = self.last_value.take() {
+      self
+        .sender
+        .unbounded_send(value)
+        .expect("failed to send observable error");
+    }
+    self.sender.close_channel();
   }
 
   fn complete(mut self) {
